@@ -3,6 +3,7 @@ package main
 import (
 	"fmt"
 	"strings"
+	"unicode/utf16"
 
 	"github.com/tsawler/tabula/core"
 	"github.com/tsawler/tabula/font"
@@ -191,3 +192,80 @@ func cmapAstral(e *harness.Env) {
 		}
 	}
 }
+
+// cmapCarry: offset-form bfranges whose destination's last UTF-16 unit crosses a multiple of 0x100
+// inside the range (..FD/..FE/..FF -> ..00), at every position of ranges of 2..4 codes, for every
+// destination shape (1 unit, 2-unit string, surrogate pair, BMP + pair, 3 and 4 units).
+//
+// Reading that is demanded (written down because ISO 32000-1 9.10.3 only says "the last byte of the
+// string shall be incremented" and calls a last byte running past 255 undefined): the increment
+// carries from the low into the high byte of the LAST UTF-16 code unit. This is what the pinned
+// independent reference does (pdf.js 2.14.305 CMap.mapBfRange: "nextCharCode > 0xff" bumps the
+// preceding byte), what tabula itself does for one-unit destinations (integer arithmetic on
+// StartUnicode), and what producers rely on (<0000> <FFFF> <0000>). Left out as undefined: a last
+// unit that would leave its class — a low surrogate running past DFFF, a BMP unit running into
+// D800..DFFF or past FFFF. Source codes always share all bytes but the last (Adobe TN 5014: the codes
+// of a range differ only in their last byte), so a source range crossing ..FF -> ..00 is not generated.
+func cmapCarry(e *harness.Env) {
+	type shape struct {
+		kind   string // form label (number / kind of units), reusing the kinds of the main alphabet
+		prefix string // units before the last one
+		pair   bool   // the last unit is a low surrogate (the unit before it is the high surrogate)
+	}
+	shapes := []shape{
+		{"rO", "", false}, {"rL", "f", false}, {"rT", "ff", false}, {"rQ", "\U0001D400f", false},
+		{"rS", "", true}, {"rM", "f", true}, {"rQ", "fi", true},
+	}
+	for _, sh := range shapes {
+		var starts [][]uint16 // the last one or two units of the first target
+		if sh.pair {
+			for _, hi := range []uint16{0xD835, 0xDBFF} {
+				for _, lh := range []uint16{0xDC, 0xDD, 0xDE} {
+					for _, ll := range []uint16{0xFD, 0xFE, 0xFF} {
+						starts = append(starts, []uint16{hi, lh<<8 | ll})
+					}
+				}
+			}
+		} else {
+			for _, h := range []uint16{0x00, 0x01, 0x20, 0xFE} {
+				for _, l := range []uint16{0xFD, 0xFE, 0xFF} {
+					starts = append(starts, []uint16{h<<8 | l})
+				}
+			}
+		}
+		for _, st := range starts {
+			for n := 2; n <= 4; n++ {
+				var targets []string
+				for i := 0; i < n; i++ {
+					u := append(u16(sh.prefix), st...)
+					u[len(u)-1] += uint16(i) // carries into the high byte of the last unit, never out of its class (see the start values)
+					targets = append(targets, string(utf16Decode(u)))
+				}
+				crosses := st[len(st)-1]&0xFF+uint16(n-1) > 0xFF
+				for _, prog := range [][]string{{sh.kind}, {"rA", sh.kind}, {sh.kind, "rB"}} {
+					for _, w := range []int{1, 2} {
+						entries := make([]entry, len(prog))
+						for i, k := range prog {
+							if k == sh.kind {
+								entries[i] = makeEntry(k, i, w, append([]string{}, targets...))
+							} else {
+								entries[i] = buildEntry(k, i, w)
+							}
+						}
+						for _, format := range []string{"lines", "secline"} {
+							for _, via := range cmapVias {
+								if !hasWidth(via.widths, w) || via.limit(e.Thorough()) > 0 {
+									continue
+								}
+								cmapGroup(e, prog, entries, w, format, "grouped", via,
+									"carry", hexUnits(append(u16(sh.prefix), st...), false), "len", n, "crosses", yn(crosses))
+							}
+						}
+					}
+				}
+			}
+		}
+	}
+}
+
+func utf16Decode(u []uint16) []rune { return utf16.Decode(u) }
